@@ -135,6 +135,8 @@ def gen_grid(rng):
             "da_int": rng.random() < 0.3, "da_chunked": rng.random() < 0.3,
             # target levels / bin edges held as integers when they are whole numbers
             "lev_int": rng.random() < 0.3,
+            # the axis may have further positions (a model's vertical axis often has centre, left, right, outer)
+            "more_pos": rng.choice([[], [], ["left"], ["right", "left"], ["inner"]]),
             "has_outer": method == "conservative" or rng.random() < 0.6}
 
 
@@ -152,8 +154,12 @@ def build_grid_call(case):
     coords = {nm("zc"): np.arange(N) * 2.0 + 1.0, nm("x"): np.arange(case["nx"]), nm("t"): np.arange(2)}
     if case["has_outer"]:
         coords[nm("zo")] = np.arange(N + 1) * 2.0
+    extra_pos = {p: nm("z" + p[0] + "_") for p in case.get("more_pos", [])}
+    for p, d in extra_pos.items():
+        coords[d] = (np.arange(N - 1) * 2.0 + 2.0) if p == "inner" else np.arange(N) * 2.0 + (0.0 if p == "left" else 2.0)
     ds = xr.Dataset(coords=coords)
     zc = {"center": nm("zc")}
+    zc.update(extra_pos)                 # (listed before the outer position)
     if case["has_outer"]:
         zc["outer"] = nm("zo")
     g = Grid(ds, coords={nm("Z"): zc}, periodic=case["periodic"], autoparse_metadata=False)
@@ -231,7 +237,8 @@ def cdims(ds):
 def coq_tcall(case):
     N = case["N"]
     nm = lambda x: case.get("names", {}).get(x, x)
-    coords = [("Center", nm("zc"))] + ([("Outer", nm("zo"))] if case["has_outer"] else [])
+    coords = [("Center", nm("zc"))] + [(p.capitalize(), nm("z" + p[0] + "_")) for p in case.get("more_pos", [])] + \
+        ([("Outer", nm("zo"))] if case["has_outer"] else [])
     tens = lambda ds, vals: f"(of_list None {cdims(ds)} " + C.clist(qn(v) for v in vals) + ")"
     lev = case["levels"]
     if case["target_kind"] == "arr":
